@@ -51,6 +51,39 @@ type ReplaySuite func(o *Out, lines []string)
 
 var replaySuites = map[string]ReplaySuite{}
 
+// replayStateless re-runs every `op` line of a case file through run.
+func replayStateless(o *Out, suite string, lines []string, run func(o *Out, ws []string)) {
+	open := false
+	for _, l := range lines {
+		ws := strings.Fields(l)
+		if len(ws) == 0 {
+			continue
+		}
+		switch ws[0] {
+		case "case":
+			if open {
+				o.End()
+			}
+			o.Case(suite)
+			open = true
+		case "op":
+			if !open {
+				o.Case(suite)
+				open = true
+			}
+			run(o, ws[1:])
+		case "end":
+			if open {
+				o.End()
+			}
+			open = false
+		}
+	}
+	if open {
+		o.End()
+	}
+}
+
 func main() {
 	if len(os.Args) < 2 {
 		fmt.Fprintln(os.Stderr, "usage: bsharness <suite> [-seed N] [-n N] [-tier quick|thorough] [-replay file]")
